@@ -56,7 +56,7 @@ end Issue
 structure Flat where
   form : List String
   fields : List (String × List String)
-  deriving Repr
+  deriving Repr, DecidableEq
 
 /-- `FieldErrors[k] = append(FieldErrors[k], m)` -/
 def addField (k m : String) : List (String × List String) → List (String × List String)
@@ -127,11 +127,11 @@ def propAt (k : String) : List (String × Tree) → Option Tree
   | [] => none
   | (k', t) :: r => if k' = k then some t else propAt k r
 
-/-- messages filed at the node a typed path denotes (`[]` when the node does not exist) -/
+/-- messages filed at the node a typed path denotes (a node that does not exist holds none) -/
 def Tree.at : List Seg → Tree → List String
   | [], .node e _ _ => e
-  | .key k :: r, .node _ p _ => match propAt k p with | some t => Tree.at r t | none => []
-  | .idx n :: r, .node _ _ i => match i[n]? with | some t => Tree.at r t | none => []
+  | .key k :: r, .node _ p _ => Tree.at r ((propAt k p).getD Tree.empty)
+  | .idx n :: r, .node _ _ i => Tree.at r (i.getD n Tree.empty)
 
 /-! ## FormatError  (errors.go FormatErrorWithMapper) -/
 
@@ -208,10 +208,10 @@ def kidAt (k : String) : List (String × Fmt) → Option Fmt
   | [] => none
   | (k', t) :: r => if k' = k then some t else kidAt k r
 
-/-- messages filed at the node a chain of keys denotes -/
+/-- messages filed at the node a chain of keys denotes (a node that does not exist holds none) -/
 def Fmt.at : List String → Fmt → List String
   | [], .node e _ => e
-  | k :: r, .node _ kids => match kidAt k kids with | some t => Fmt.at r t | none => []
+  | k :: r, .node _ kids => Fmt.at r ((kidAt k kids).getD Fmt.empty)
 
 /-! ### The code before pending/C19-format-wrappers.diff (for the witness theorems) -/
 
